@@ -184,11 +184,11 @@ pub fn run() -> i32 {
 
     // (c)
     let sls: Vec<usize> = match tier {
-        Tier::Quick => (8..=64).filter(|x| x % 3 == 2 || [8, 15, 16, 17, 32, 63, 64].contains(x)).collect(),
+        Tier::Quick => (8..=64).filter(|x| x % 2 == 0 || [8, 15, 16, 17, 31, 33, 63, 64].contains(x)).collect(),
         Tier::Thorough => (8..=64).collect(),
     };
     let hls: Vec<usize> = match tier {
-        Tier::Quick => (16..=128).filter(|x| x % 3 == 1 || [16, 17, 31, 32, 33, 63, 64, 65, 127, 128].contains(x)).collect(),
+        Tier::Quick => (16..=128).filter(|x| x % 2 == 1 || [16, 32, 64, 96, 126, 128].contains(x)).collect(),
         Tier::Thorough => (16..=128).collect(),
     };
     let units: Vec<(i32, usize)> = [1, 2].iter().flat_map(|t| sls.iter().map(move |s| (*t, *s))).collect();
